@@ -423,6 +423,68 @@ func oneModify(pi int, op *spb.AFTOperation, desc string) (string, []fail) {
 	return oc, out
 }
 
+// batchModify sends several operations in ONE request: every invalid one must be answered FAILED exactly once under
+// its own id (or the RPC ends), a valid one among them is answered under its own id, and nothing is answered twice.
+func batchModify(pi int, ops []*spb.AFTOperation, desc string) []fail {
+	s, err := build(pi)
+	if err != nil {
+		return []fail{{"engine/build", err.Error()}}
+	}
+	resCh := make(chan *spb.ModifyResponse, 64)
+	errCh := make(chan error, 64)
+	var crash string
+	func() {
+		defer func() {
+			if r := recover(); r != nil {
+				crash = fmt.Sprintf("%v\n%s", r, debug.Stack())
+			}
+		}()
+		s.VerifDoModify("c0", ops, resCh, errCh)
+	}()
+	name := fmt.Sprintf("pre-state=%s %s", preStates[pi].name, desc)
+	if crash != "" {
+		return []fail{{"C12/panic/" + panicSite(crash), fmt.Sprintf("%s: the server panicked on a request of %d operations: %s", name, len(ops), firstLine(crash))}}
+	}
+	close(resCh)
+	close(errCh)
+	// (responses are read after the handler returned, as a consumer that keeps what it received may do)
+	terminal := map[uint64][]spb.AFTResult_Status{}
+	for r := range resCh {
+		for _, ar := range r.GetResult() {
+			if st := ar.GetStatus(); st == spb.AFTResult_FAILED || st == spb.AFTResult_RIB_PROGRAMMED {
+				terminal[ar.GetId()] = append(terminal[ar.GetId()], st)
+			}
+		}
+	}
+	ended := false
+	for range errCh {
+		ended = true
+	}
+	var out []fail
+	for _, op := range ops {
+		got := terminal[op.GetId()]
+		inv, class := definitelyInvalid(op)
+		switch {
+		case len(got) > 1:
+			out = append(out, fail{"C12/operation-of-a-batch-answered-twice", fmt.Sprintf("%s: operation %d {%s} received %v", name, op.GetId(), ribx.Text(op), got)})
+		case inv && len(got) == 0 && !ended:
+			out = append(out, fail{"C12/invalid-operation-of-a-batch-not-answered/" + class, fmt.Sprintf("%s: invalid operation %d {%s} (%s) received no FAILED result and the RPC was not ended (answers per id: %v)", name, op.GetId(), ribx.Text(op), class, terminal)})
+		case inv && len(got) == 1 && got[0] != spb.AFTResult_FAILED:
+			out = append(out, fail{"C12/invalid-operation-not-rejected/" + class + "/" + op.GetOp().String(), fmt.Sprintf("%s: invalid operation %d {%s} (%s) of a batch was answered %v", name, op.GetId(), ribx.Text(op), class, got)})
+		}
+	}
+	for id := range terminal {
+		known := false
+		for _, op := range ops {
+			known = known || op.GetId() == id
+		}
+		if !known {
+			out = append(out, fail{"C12/answer-for-an-id-that-was-not-sent", fmt.Sprintf("%s: a result for id %d, the request carried other ids", name, id)})
+		}
+	}
+	return out
+}
+
 // oneModifyRT repeats a (mutated) operation inside one controlled execution together with the liveness probe: the
 // verdict and state oracles are oneModify's; this pass decides "does not hang or wedge other sessions".
 func oneModifyRT(pi int, op *spb.AFTOperation, desc string) []fail {
@@ -509,6 +571,29 @@ func Run(rep *report.Report, tier string) {
 			}
 		}
 	}
+	// requests of several operations: every invalid single mutant together with the next invalid single mutant of the
+	// same seed (ids 9001, 9002) and the unmutated seed (id 9003), in the richest pre-state
+	nBatches := 0
+	for _, seed := range seeds() {
+		var invs []job
+		for _, j := range jobs {
+			if j.pi != 1 || strings.Contains(j.desc, " + ") || !strings.HasPrefix(j.desc, fmt.Sprintf("%s %s /", seed.GetOp(), func() ribx.Kind { k, _, _ := ribx.Describe(seed); return k }())) {
+				continue
+			}
+			if inv, _ := definitelyInvalid(j.op); inv {
+				invs = append(invs, j)
+			}
+		}
+		for i := range invs {
+			a, b, c := proto.Clone(invs[i].op).(*spb.AFTOperation), proto.Clone(invs[(i+1)%len(invs)].op).(*spb.AFTOperation), proto.Clone(seed).(*spb.AFTOperation)
+			a.Id, b.Id, c.Id = 9001, 9002, 9003
+			nBatches++
+			for _, f := range batchModify(1, []*spb.AFTOperation{a, b, c}, "batch ["+invs[i].desc+"] ["+invs[(i+1)%len(invs)].desc+"] [unmutated]") {
+				rep.Violate(f.sig, f.what, map[string]any{"pre_state": preStates[1].name, "batch": []string{ribx.Text(a), ribx.Text(b), ribx.Text(c)}})
+			}
+		}
+	}
+	rep.Set("batches_of_two_invalid_and_one_valid_operation", nBatches)
 	outcomes := map[string]int{}
 	var mu sync.Mutex
 	// every job once per iteration order of the maps of the instrumented packages (ascending, descending): the
